@@ -170,26 +170,41 @@ theorem announce_cycle (k : Consts) (t : DevTree) (n i : Nat) (h : i < n) :
 
 /-! ### the library's own listener -/
 
-/-- **listener accepts**: with a description URL the listener does not reject by design (http…,
-    not loopback / 169.254), every message the server emits for a well-formed tree — any search
-    answer, any `ssdp:alive`, any `ssdp:byebye` (after its alive) — is reported by the listener
-    model as the device the message describes, under the message's own ST/NT, at the description URL -/
-theorem listener_accepts {t : DevTree} (hw : wfTree t = true) {loc : Str} (hl : validLocation loc = true) :
+/-- **one listener**: the `Str`-level predicates used above are the merged C03/C04 listener
+    model's: `udn_from_usn`, and the location test with the prefix and needles generated from
+    `ssdp_listener.py` (same for searches and advertisements) -/
+theorem listener_predicates (u l : Str) :
+    C03.Parse.udnFromUsn (toS u) = (udnFromUsn u).map toS
+    ∧ C03.Parse.locOk C03.genCfg.searchPrefix C03.genCfg.searchNeedles (toS l) = validLocation l
+    ∧ C03.Parse.locOk C03.genCfg.advPrefix C03.genCfg.advNeedles (toS l) = validLocation l :=
+  ⟨udnFromUsn_eq u, (validLocation_eq l).1, (validLocation_eq l).2⟩
+
+/-- **listener accepts** (composition with the C03/C04 model): take any message the server emits
+    for a well-formed tree — any search answer (either option setting), any `ssdp:alive`, any
+    `ssdp:byebye` — as the full header list `build_ssdp_packet` serialises, add what
+    `decode_ssdp_packet` adds, and run the merged listener model (`C03.Parse.parseEv`: `_on_data`
+    dispatch and the validity predicates `valid_search_headers / valid_advertisement_headers /
+    valid_byebye_headers`; `C03.step`: `SsdpDeviceTracker` and the `_on_*` callbacks) on a tracker
+    that knows nothing (byebye: that has just processed the alive).  With a description URL the
+    listener does not reject by design (http…, not 127.0.0.1 / [::1] / 169.254 — IPv4, IPv6 or
+    named host alike) the callback fires with the device the message describes, the message's own
+    ST/NT, and the description URL as the device's location. -/
+theorem listener_accepts {t : DevTree} (hw : wfTree t = true) (c : Cfg) (hl : validLocation c.location = true) :
     (∀ ar st, ∀ m ∈ buildResponses t ar st, ∃ e ∈ (expected t ar st).1, m.usn = e.usn ∧
-        hearSearch m.st m.usn loc = ⟨true, e.dev, m.st, loc, 0⟩) ∧
+        hearResponse c m = ⟨true, e.dev, m.st, c.location, 0⟩) ∧
     (∀ m ∈ advertisements t, ∃ e ∈ expAll t, m = toMsg e ∧
-        hearAlive m.st m.usn loc = ⟨true, e.dev, m.st, loc, 1⟩ ∧
-        hearByebye m.st m.usn loc = ⟨true, e.dev, m.st, loc, 2⟩) := by
+        hearAlive c m = ⟨true, e.dev, m.st, c.location, 1⟩ ∧
+        hearByebye c m = ⟨true, e.dev, m.st, c.location, 2⟩) := by
   have w := WF.of_wfTree hw
   constructor
   · intro ar st m hm
     obtain ⟨e, he, heok, husn, hst, _⟩ := response_entry w ar st hm
-    exact ⟨e, he, husn, by rw [husn]; exact hearSearch_ok heok hst hl⟩
+    exact ⟨e, he, husn, hearResponse_ok heok c husn hst hl⟩
   · intro m hm
     rw [advertisements_eq] at hm
     obtain ⟨e, he, rfl⟩ := List.mem_map.mp hm
     have heok := expAll_ok w e he
-    exact ⟨e, he, rfl, hearAlive_ok heok hl, hearByebye_ok heok hl⟩
+    exact ⟨e, he, rfl, hearAlive_ok heok c rfl heok.st hl, hearByebye_ok heok c rfl heok.st hl⟩
 
 /-! ### the wire -/
 
